@@ -20,6 +20,51 @@ def strip_cast(e: ast.AST) -> ast.AST:
     return e
 
 
+def _faithful_adapter_memo(c: Ctx, name: str) -> bool:
+    """A dict that memoises compiled adapters faithfully: everywhere in the library it is written only by `D[k] = TypeAdapter(k)` (the key IS the type the adapter is compiled
+    for), possibly as part of a chained assignment, and never otherwise mutated."""
+    stores = []
+    for uu in c.prog.units.values():
+        for n in own_nodes(uu.node):
+            if isinstance(n, ast.Assign):
+                for t in n.targets:
+                    if isinstance(t, ast.Subscript) and isinstance(t.value, ast.Name) and t.value.id == name:
+                        stores.append((t, n.value))
+            elif isinstance(n, (ast.AugAssign, ast.Delete)) and name in U(n):
+                return False
+            elif isinstance(n, ast.Call) and isinstance(n.func, ast.Attribute) and isinstance(n.func.value, ast.Name) and n.func.value.id == name and n.func.attr in ('update', 'setdefault', 'pop', 'popitem', '__setitem__'):
+                return False
+    return bool(stores) and all(isinstance(v, ast.Call) and call_name(v) == 'TypeAdapter' and len(v.args) == 1 and not v.keywords and U(v.args[0]) == U(t.slice) for t, v in stores)
+
+
+def _adapter_types(c: Ctx, u: Unit, name: str, seen: frozenset = frozenset()) -> set[str]:
+    """The type expressions the adapter held in local *name* can have been compiled for ('?' when a definition is not understood)."""
+    if name in seen:
+        return set()
+    out: set[str] = set()
+    defs = []
+    for n in own_nodes(u.node):
+        if isinstance(n, ast.Assign):
+            if any(isinstance(t, ast.Name) and t.id == name for t in n.targets):
+                defs.append(n.value)
+    if not defs:
+        return {'?'}
+    for v in defs:
+        if isinstance(v, ast.Constant) and v.value is None:
+            continue  # "not looked up yet / not in the memo": a later binding supplies the adapter
+        if isinstance(v, ast.Call) and call_name(v) == 'TypeAdapter' and len(v.args) == 1:
+            out.add(U(v.args[0]))
+        elif isinstance(v, ast.Name):
+            out |= _adapter_types(c, u, v.id, seen | {name})
+        elif isinstance(v, ast.Call) and isinstance(v.func, ast.Attribute) and v.func.attr == 'get' and isinstance(v.func.value, ast.Name) and len(v.args) == 1 and _faithful_adapter_memo(c, v.func.value.id):
+            out.add(U(v.args[0]))  # the memo's key is the type
+        elif isinstance(v, ast.Subscript) and isinstance(v.value, ast.Name) and _faithful_adapter_memo(c, v.value.id):
+            out.add(U(v.slice))
+        else:
+            out.add('?')
+    return out
+
+
 @ob('C12.1', 'PATH', 'in EventResult.update, with a declared result_type and a non-None, non-BaseEvent result, self.result is assigned only from the value returned by '
     'model_validate / TypeAdapter(result_type).validate_python; any exception in that region yields result=None, status=error and an error; unvalidated assignment only '
     'when no type is declared, the result is None, or it is a forwarded event')
@@ -58,8 +103,7 @@ def c12_1(c: Ctx) -> None:
                 elif call_name(dv) == 'model_validate' and U(dv.func.value) != f'{self_}.result_type':
                     good = False
                 elif call_name(dv) == 'validate_python':
-                    adapters = [n for n in own_nodes(u.node) if isinstance(n, ast.Assign) and U(n.targets[0]) == U(dv.func.value)]
-                    if not adapters or not all(isinstance(a.value, ast.Call) and call_name(a.value) == 'TypeAdapter' and a.value.args and U(a.value.args[0]) == f'{self_}.result_type' for a in adapters):
+                    if _adapter_types(c, u, U(dv.func.value)) != {f'{self_}.result_type'}:
                         good = False
             if good:
                 n_valid += 1
@@ -84,15 +128,45 @@ def c12_1(c: Ctx) -> None:
     # the exception arm
     val_calls = [n for n in own_nodes(u.node) if isinstance(n, ast.Call) and call_name(n) in ('model_validate', 'validate_python', 'TypeAdapter')]
     # the declared type alone decides how strict the check is: no validation-mode argument (strict=, from_attributes=, context=) is passed along
+    def harmless_config(k: ast.keyword) -> bool:
+        # `config=ConfigDict(arbitrary_types_allowed=True)` (directly or through a module constant): lets pydantic build an isinstance() schema for classes it knows nothing
+        # about; it does not change how any type that has a schema is validated
+        if k.arg != 'config':
+            return False
+        v = k.value
+        if isinstance(v, ast.Name):
+            mi = c.prog.modules.get(u.module)
+            defs = [st_.value for st_ in (mi.tree.body if mi else []) if isinstance(st_, (ast.Assign, ast.AnnAssign)) and st_.value is not None and U(st_.targets[0] if isinstance(st_, ast.Assign) else st_.target) == v.id]
+            v = defs[0] if len(defs) == 1 else v
+        return isinstance(v, ast.Call) and U(v.func).split('.')[-1] == 'ConfigDict' and not v.args and {kk.arg for kk in v.keywords} <= {'arbitrary_types_allowed'}
+
     for vc in val_calls:
-        extra = [k.arg or '**' for k in vc.keywords] + ([U(a)[:20] for a in vc.args[1:]])
+        # (library fact: TypeAdapter(T, config=..) raises PydanticUserError for a T that carries its own config — BaseModel, dataclass, TypedDict — so an adapter-level config is
+        #  only usable as a fallback, after the plain TypeAdapter(T) failed to generate a schema)
+        for k in [k for k in vc.keywords if harmless_config(k)]:
+            arm = next((a for a in q.ancestors_of(vc) if isinstance(a, ast.ExceptHandler)), None)
+            tr = parent(arm) if arm is not None else None
+            fallback = arm is not None and 'PydanticSchemaGenerationError' in U(arm.type) and isinstance(tr, ast.Try) \
+                and any(isinstance(x, ast.Call) and call_name(x) == 'TypeAdapter' and not x.keywords and U(x.args[0]) == U(vc.args[0]) for b in tr.body for x in ast.walk(b))
+            if not fallback:
+                c.fail(u, f'{call_name(vc)}(.., config=..) is not a fallback after the plain adapter failed', 'an adapter-level config is refused by pydantic for declared types that carry their own config '
+                       '(dataclasses, TypedDicts, BaseModels): every value of such a type, conforming or not, ends as an error result with no value', node=vc)
+        extra = [k.arg or '**' for k in vc.keywords if not harmless_config(k)] + ([U(a)[:20] for a in vc.args[1:]])
         if extra:
             c.fail(u, f'{call_name(vc)}(...) is called with extra arguments {extra}', 'a validation-mode argument overrides what the declared type asks for (an explicit strict=False switches a StrictInt / '
                    'ConfigDict(strict=True) type to lax coercion): a non-conforming value is recorded as a completed result', node=vc)
-    tries = {id(t): t for vc in val_calls for t in q.ancestors_of(vc) if isinstance(t, ast.Try) and q.lexically_in(vc, t, 'body')}
+    H = c.an.fm.h
+    # per validation call: the outermost try that contains it and catches Exception (a narrower try nested inside — a retry with other options — does not matter)
+    tries = {}
+    for vc in val_calls:
+        enclosing = [t for t in q.ancestors_of(vc) if isinstance(t, ast.Try) and (q.lexically_in(vc, t, 'body') or any(any(z is vc for z in ast.walk(b)) for h_ in t.handlers for b in h_.body) and False)]
+        catching = [t for t in enclosing if any(H.match(ANY_EXCEPTION, handler_type_names(h)) == 'yes' for h in t.handlers)]
+        if catching:
+            tries[id(catching[-1])] = catching[-1]
+        elif enclosing:
+            tries[id(enclosing[-1])] = enclosing[-1]
     if not tries:
         c.fail(u, 'validation calls are not inside a try', 'a validation error propagates into execute_handler instead of producing an error result')
-    H = c.an.fm.h
     for t in tries.values():
         arms = [h for h in t.handlers if H.match(ANY_EXCEPTION, handler_type_names(h)) == 'yes']
         if not arms:
